@@ -257,3 +257,41 @@ func ZZ_C14_RegisterSetGetSet() {
 	zzvf.Assert(ok, "registerset/set-then-get")
 	zzvf.Reach("getset")
 }
+
+// the estimate is a function of the register state only (no stale cache): on CONCRETE
+// histories (float arithmetic is evaluated by the interpreter) a counter that was queried,
+// then merged into / offered to, reports the same estimate as a counter rebuilt from the
+// same items, and as the counter restored from its serialised form
+//vf: paths=200 visits=5000
+func ZZ_C14_EstimateFollowsRegisters() {
+	p := []uint32{4, 10}[zzvf.Choose(2)]
+	x, y, u := NewHyperLogLogInt(p), NewHyperLogLogInt(p), NewHyperLogLogInt(p)
+	for i := uint32(0); i < 6; i++ {
+		x.Offer(i * 7919)
+		u.Offer(i * 7919)
+	}
+	for i := uint32(0); i < 9; i++ {
+		y.Offer(1000003 + i*104729)
+		u.Offer(1000003 + i*104729)
+	}
+	c0 := x.Cardinality()
+	how := zzvf.Choose(3)
+	switch how {
+	case 0:
+		x.AddAll(y)
+	case 1:
+		for i := uint32(0); i < 9; i++ {
+			x.Offer(1000003 + i*104729)
+		}
+	case 2:
+		x = x.Merge(y)
+	}
+	c1 := x.Cardinality()
+	zzvf.Assert(zzvf.Same(zzRegs(x), zzRegs(u)), "estimate/registers-equal-the-rebuilt-counter")
+	zzvf.Assert(c1 == u.Cardinality(), "estimate/queried-then-extended-counter-reports-like-the-rebuilt-one")
+	r := BuildHyperLogLog(x.GetBytes())
+	zzvf.Assert(r.Cardinality() == c1, "estimate/restored-counter-reports-the-same")
+	zzvf.Observe("c0", c0)
+	zzvf.Observe("c1", c1)
+	zzvf.Reach("estimatefollows")
+}
